@@ -486,6 +486,10 @@ func genDDLog(r *rand.Rand, c *Case) {
 	}
 	for i := 0; i < n; i++ {
 		e := DDLog{Tags: []KV{}, Message: Str(genLine(r)), TsMs: genTs(r, r.Intn(2)) / 1000000}
+		if r.Intn(6) == 0 {
+			e.TsMs = 0 // no timestamp member: the row is stamped with time.Now()
+			flag(c, "clock-stamped")
+		}
 		used := map[string]bool{}
 		for j := r.Intn(4); j > 0; j-- {
 			k := pick(r, ddKeys)
@@ -763,7 +767,21 @@ func gen(r *rand.Rand, i int) Case {
 		c.Proto = "prw"
 		genPrw(r, &c, 7)
 	default:
-		switch r.Intn(14) {
+		switch r.Intn(16) {
+		case 14:
+			c.Proto = "ddcf"
+			if r.Intn(5) == 0 {
+				c.Damage = true
+				flag(&c, "damaged-document")
+			}
+			genCF(r, &c)
+		case 15:
+			c.Proto = "esbulk"
+			if r.Intn(5) == 0 {
+				c.Damage = true
+				flag(&c, "damaged-document")
+			}
+			genES(r, &c)
 		case 0, 1, 2:
 			c.Proto = "loki_json"
 			genLoki(r, &c, false)
